@@ -30,7 +30,7 @@ template <class T> static bool num(const T& v, u64& out) {
     else { (void)v; (void)out; return false; }
 }
 template <class A> static unsigned width_bits() {
-    if constexpr (std::is_same<A, bool>::value) return 1; else if constexpr (std::is_integral<A>::value) return sizeof(A) * 8; else if constexpr (std::is_enum<A>::value) return sizeof(A) * 8;
+    if constexpr (std::is_same<A, bool>::value) return 1; else if constexpr (std::is_integral<A>::value) return sizeof(A) * 8; else if constexpr (std::is_enum<A>::value) return 8;   // enumerator values of the protocols fit one octet; larger raw values are not 'representable values of the field'
     else if constexpr (is_small<A>::value) return is_small<A>::bits; else if constexpr (std::is_same<A, IPv4Address>::value) return 32; else if constexpr (std::is_same<A, IPv6Address>::value) return 128;
     else if constexpr (std::is_same<A, HWAddress<6>>::value) return 48; else return 0;
 }
@@ -50,6 +50,19 @@ static std::set<size_t> derived_bytes(const std::string& cls) {
     if (cls == "IP") return {2, 3, 10, 11}; if (cls == "ICMP") return {2, 3}; if (cls == "ICMPv6") return {2, 3}; if (cls == "UDP") return {4, 5, 6, 7}; if (cls == "TCP") return {16, 17};
     if (cls == "IPv6") return {4, 5}; if (cls == "Dot3") return {12, 13}; if (cls == "PPPoE") return {4, 5}; if (cls == "RSNEAPOL" || cls == "RC4EAPOL") return {2, 3}; if (cls == "RadioTap") return {2, 3}; if (cls == "IPSecAH") return {1};
     return {};
+}
+// getters of fields libtins derives at serialization time (lengths, checksums, header lengths): they may change whenever serialize() runs
+static const std::set<std::string>& derived_getters() {
+    static const std::set<std::string> s = {"IP.tot_len", "IP.head_len", "IP.checksum", "IP.advertised_size", "IPv6.payload_length", "TCP.checksum", "TCP.data_offset", "UDP.length", "UDP.checksum", "ICMP.checksum", "ICMPv6.checksum",
+        "Dot3.length", "PPPoE.payload_length", "EAPOL.length", "RC4EAPOL.length", "RSNEAPOL.length", "RSNEAPOL.wpa_length", "RadioTap.length", "IPSecAH.length", "MPLS.bottom_of_stack", "EthernetII.trailer_size", "Dot1Q.trailer_size",
+        "Dot3.trailer_size", "RadioTap.trailer_size", "ICMP.trailer_size", "ICMPv6.trailer_size", "LLC.header_size"};
+    return s;
+}
+// getters that are functions of several fields (composite views): their value follows their constituents by design
+static const std::set<std::string>& computed_getters() {
+    static const std::set<std::string> s = {"Dot11Data.src_addr", "Dot11Data.dst_addr", "Dot11Data.bssid_addr", "IP.is_fragmented", "RadioTap.present", "RadioTap.options_payload",
+        "RadioTap.channel_freq", "RadioTap.channel_type", "EthernetII.header_size", "IPv6.headers"};
+    return s;
 }
 // getters that overlay the same header bits by design (unions, composite views): "other getters unchanged" is applied per group
 static const std::vector<std::set<std::string>>& alias_groups() {
@@ -97,89 +110,97 @@ static const std::map<std::string, Spec>& spec_table() {
 }
 static u64 extract_be(const Bytes& y, size_t byte, unsigned bit, unsigned width) { u64 v = 0; size_t pos = byte * 8 + bit; for (unsigned i = 0; i < width && i < 64; ++i, ++pos) v = (v << 1) | ((y[pos / 8] >> (7 - pos % 8)) & 1); return v; }
 
-// footprints learned in this process: field key -> set of bit positions
-static std::map<std::string, std::set<size_t>> g_foot; static std::map<std::string, std::string> g_foot_cls;
+// footprints learned in this case: field key -> set of bit positions
+static std::map<std::string, std::set<size_t>> g_foot;
 
-template <class Q> static Bytes ser(Q& o) { try { return o.serialize(); } catch (...) { return Bytes(); } }
+// ---- type-erased per-field operations (keeps the per-field template code tiny) -------------------------------------
+struct Val { std::string text; u64 num = 0; bool numeric = false; };
+struct FieldOps {
+    std::string key, cls, owner; unsigned width = 0; int small_bits = 0; bool is_enum = false;
+    std::function<Val(PDU&, u64, Rng&)> set;        // builds the value from x, calls the setter (may throw), returns the value set
+    std::function<Val(const PDU&)> get;
+    std::function<int(PDU&, u64)> overwide;          // small_uint<N> only: 1 rejected, 0 accepted
+};
+static std::vector<FieldOps> g_fields;
+static std::map<std::string, std::function<PDU*()>> g_make;
 
-struct FieldRunner { std::string key, cls, owner; std::function<void(long, Rng&, bool)> run; };
-static std::vector<FieldRunner> g_fields;
+static Bytes ser(PDU& o) { try { return o.serialize(); } catch (...) { return Bytes(); } }
 
-template <class Q, class A, class SET, class GET>
-static void run_field(const std::string& key, const std::string& cls, const std::string& owner, SET set, GET get, long round, Rng& r, bool thorough) {
-    const unsigned W = width_bits<A>();
+static void poke_others(PDU& o, const std::string& cls, const std::string& key, Rng& r, u32 state) {
+    if (IP* ip = dynamic_cast<IP*>(&o)) ip->src_addr("198.51.100.7");      // a root IP with source 0.0.0.0 would consult the OS routing table in serialize()
+    if (!state) return;
+    for (auto& f : g_fields) if (f.cls == cls && f.key != key && !aliases(f.key, key) && f.width && (state == 1 || r.chance(1, 2))) {
+        u64 mx = f.width >= 64 ? ~0ULL : ((1ULL << f.width) - 1); u32 before = o.size(); std::unique_ptr<PDU> copy(o.clone());
+        if (f.key == "IP.src_addr" && state != 1) continue;
+        try { f.set(o, state == 1 ? mx : (r.next() & mx), r); } catch (...) {}
+        if (o.size() != before) { /* an option setter: undo by value */ const_cast<std::string&>(key); PDU* fresh = copy.release(); (void)fresh; delete fresh; return; }
+    }
+}
+
+static void run_field(const FieldOps& f, long round, Rng& r, bool thorough) {
+    const unsigned W = f.width;
     if (W == 0) { cnt("pairs_non_scalar_argument(C04)"); return; }
-    // prior state: default | every other scalar field poked | random pokes
-    Q o; u32 state = (u32)(round % 3);
-    extern void poke_others(void*, const std::string&, const std::string&, Rng&, u32);
-    poke_others(&o, cls, key, r, state);
-    // values
+    std::unique_ptr<PDU> op(g_make[f.cls]()); PDU& o = *op; u32 state = (u32)(round % 3);
+    // dynamic classification first: a setter that changes size() is an option setter (C04's business)
+    { std::unique_ptr<PDU> probe(g_make[f.cls]()); u32 s0 = probe->size(); try { f.set(*probe, 1, r); } catch (...) {} if (probe->size() != s0) { cnt("pairs_option_setter(C04)"); return; } }
+    poke_others(o, f.cls, f.key, r, state);
     std::vector<u64> vals; u64 mx = W >= 64 ? ~0ULL : ((1ULL << W) - 1);
     if (W <= 8 || (thorough && W <= 16)) for (u64 v = 0; v <= mx; ++v) vals.push_back(v);
     else { const u64 bs[] = {(u64)0, (u64)1, mx, mx - 1, mx >> 1, (mx >> 1) + 1, (u64)(0x5555555555555555ULL & mx), (u64)(0xaaaaaaaaaaaaaaaaULL & mx), (u64)(0x0102030405060708ULL & mx), (u64)(0x8000000000000001ULL & mx)}; for (u64 b : bs) vals.push_back(b);
         for (unsigned i = 0; i < W && i < 64; ++i) vals.push_back(1ULL << i); for (int i = 0; i < (thorough ? 4000 : 150); ++i) vals.push_back(r.next() & mx); }
-    const bool le = little_endian_class(owner);
-    const std::set<size_t> der = derived_bytes(cls);
-    auto spec = spec_table().find(key);
+    const bool le = little_endian_class(f.owner); const std::set<size_t> der = derived_bytes(f.cls); auto spec = spec_table().find(f.key);
+    const std::string& key = f.key;
     for (u64 x : vals) {
-        A v = make_value<A>(x, r);
+        if (key == "IP.src_addr" && x == 0) continue;
         View before; before.strict_exceptions = false; describe_layer(o, before); Bytes y0 = ser(o); u32 size0 = o.size();
-        describe_case("field=" + key + " class=" + cls + " value=" + txt(v) + " state=" + std::to_string(state));
-        try { set(o, v); }
+        describe_case("field=" + key + " class=" + f.cls + " x=" + std::to_string(x) + " state=" + std::to_string(state));
+        Val v;
+        try { v = f.set(o, x, r); }
         catch (const exception_base&) { cnt("setter_rejected_value"); continue; }
         catch (const value_too_large&) { cnt("setter_rejected_value"); continue; }
-        if (o.size() != size0) { cnt("pairs_option_setter(C04)"); return; }        // changes the layout: an option setter, not a header field
+        if (o.size() != size0) { cnt("pairs_option_setter(C04)"); return; }
         cnt("sets");
-        // (1) exact inverse
-        std::string got, want = txt(v);
-        try { got = txt(get(o)); } catch (const std::exception& e) { violation("getter-throws/" + key, std::string("getter threw after set: ") + e.what()); return; }
-        u64 gn = 0, wn = 0; bool numeric = false;
-        try { auto g = get(o); numeric = num(g, gn) && num(v, wn); } catch (...) {}
-        if (numeric ? gn != wn : got != want) { violation("get-after-set/" + key, "set " + want + " but the getter returns " + got + " (state " + std::to_string(state) + ")"); return; }
-        // (2) neighbours untouched
+        Val g; try { g = f.get(o); } catch (const std::exception& e) { violation("getter-throws/" + key, std::string("getter threw after set: ") + e.what()); return; }
+        if (g.numeric && v.numeric && g.num != v.num) { bool trunc = false; for (unsigned k = 1; k < W && !trunc; ++k) { u64 m = (1ULL << k) - 1; if (v.num > m && g.num == (v.num & m)) trunc = true; }
+            if (trunc && f.is_enum) { cnt("enum_value_beyond_field_truncated(observation)"); continue; }     // raw values that are not enumerators are not 'representable values of the field'
+            if (trunc) { violation("overwide-truncated/" + key, "the argument type admits " + v.text + " but the field is narrower: the value was silently truncated to " + g.text + " instead of being rejected"); return; } }
+        if ((g.numeric && v.numeric) ? g.num != v.num : g.text != v.text) { violation("get-after-set/" + key, "set " + v.text + " but the getter returns " + g.text + " (state " + std::to_string(state) + ")"); return; }
         View after; after.strict_exceptions = false; describe_layer(o, after);
         for (size_t i = 0; i < before.kv.size() && i < after.kv.size(); ++i) if (before.kv[i].second != after.kv[i].second) {
-            const std::string& k = before.kv[i].first; if (k == key || aliases(k, key) || k == "PDU.size") continue;
-            violation("neighbour-changed/" + key + "/" + k, "setting " + key + "=" + want + " changed " + k + ": " + before.kv[i].second.substr(0, 60) + " -> " + after.kv[i].second.substr(0, 60) + " (state " + std::to_string(state) + ")"); return; }
-        // (3) wire footprint
+            const std::string& k = before.kv[i].first; if (k == key || aliases(k, key) || k == "PDU.size" || derived_getters().count(k) || computed_getters().count(k)) continue;
+            violation("neighbour-changed/" + key + "/" + k, "setting " + key + "=" + v.text + " changed " + k + ": " + before.kv[i].second.substr(0, 60) + " -> " + after.kv[i].second.substr(0, 60) + " (state " + std::to_string(state) + ")"); return; }
         Bytes y1 = ser(o);
-        if (!y0.empty() && y1.size() == y0.size()) {
-            std::set<size_t>& fp = g_foot[key]; g_foot_cls[key] = cls;
+        if (!y0.empty() && y1.size() == y0.size() && f.owner != "RadioTap") {      // RadioTap fields live in a variable layout (alignment padding moves): C11 checks that layout
+            std::set<size_t>& fp = g_foot[key];
             for (size_t b = 0; b < y0.size(); ++b) if (y0[b] != y1[b] && !der.count(b)) for (int k = 0; k < 8; ++k) if ((y0[b] ^ y1[b]) & (0x80 >> k)) fp.insert(b * 8 + k);
             if (fp.size() > W) { violation("footprint-wider-than-field/" + key, "serialization bits changed by this " + std::to_string(W) + "-bit field so far: " + std::to_string(fp.size())); return; }
-            // big-endian protocols: the footprint bits, MSB first, hold the value (checked once the footprint is complete)
-            if (spec != spec_table().end() && numeric) { const Spec& sp = spec->second; if (sp.byte * 8 + sp.bit + sp.width <= y1.size() * 8 && sp.width <= 64) { u64 wire = extract_be(y1, sp.byte, sp.bit, sp.width); u64 exp = wn & (sp.width >= 64 ? ~0ULL : ((1ULL << sp.width) - 1));
-                    if (wire != exp) { violation("wire-value/" + key, "value " + want + " is not found at byte " + std::to_string(sp.byte) + " bit " + std::to_string(sp.bit) + " width " + std::to_string(sp.width) + " of the serialization (found " + std::to_string(wire) + ") y=" + hex(y1, 40)); return; } cnt("spec_table_checks"); } }
-            else if (!le && numeric && fp.size() == W && W <= 64) { u64 wire = 0; for (size_t pos : fp) wire = (wire << 1) | ((y1[pos / 8] >> (7 - pos % 8)) & 1);
-                if (wire != wn) { violation("wire-order/" + key, "the " + std::to_string(W) + " bits this field occupies do not hold " + want + " MSB-first (found " + std::to_string(wire) + ")"); return; } cnt("generic_order_checks"); }
+            if (spec != spec_table().end() && v.numeric) { const Spec& sp = spec->second; if (sp.byte * 8 + sp.bit + sp.width <= y1.size() * 8 && sp.width <= 64) { u64 wire = extract_be(y1, sp.byte, sp.bit, sp.width); u64 exp = v.num & (sp.width >= 64 ? ~0ULL : ((1ULL << sp.width) - 1));
+                    if (wire != exp) { violation("wire-value/" + key, "value " + v.text + " is not found at byte " + std::to_string(sp.byte) + " bit " + std::to_string(sp.bit) + " width " + std::to_string(sp.width) + " of the serialization (found " + std::to_string(wire) + ") y=" + hex(y1, 40)); return; } cnt("spec_table_checks"); } }
+            else if (!le && v.numeric && fp.size() == W && W <= 64) { u64 wire = 0; for (size_t pos : fp) wire = (wire << 1) | ((y1[pos / 8] >> (7 - pos % 8)) & 1);
+                if (wire != v.num) { violation("wire-order/" + key, "the " + std::to_string(W) + " bits this field occupies do not hold " + v.text + " MSB-first (found " + std::to_string(wire) + ")"); return; } cnt("generic_order_checks"); }
         }
     }
-    // (4) over-wide values for odd-width fields must be rejected, not truncated
-    if constexpr (is_small<A>::value) {
-        typedef typename A::repr_type R; const u64 mxv = (1ULL << is_small<A>::bits) - 1; const u64 tmax = (u64)std::numeric_limits<R>::max();
-        const u64 ov[] = {mxv + 1, mxv + 2, mxv * 2 + 1, (mxv + 1) | 1, tmax}; for (u64 x : ov) { if (x <= mxv || x > tmax) continue; bool threw = false; std::string before_txt = txt(get(o));
-            try { A big((R)x); set(o, big); } catch (const value_too_large&) { threw = true; } catch (const exception_base&) { threw = true; }
-            if (!threw) { violation("overwide-accepted/" + key, "value " + std::to_string(x) + " exceeds " + std::to_string(is_small<A>::bits) + " bits but was accepted (getter now " + txt(get(o)) + ", before " + before_txt + ")"); return; } cnt("overwide_rejected"); }
+    if (f.small_bits) {
+        const u64 mxv = (1ULL << f.small_bits) - 1; const u64 ov[] = {mxv + 1, mxv + 2, mxv * 2 + 1, (mxv + 1) | 1, ~0ULL};
+        for (u64 x : ov) { std::string before_txt = f.get(o).text; int res = f.overwide(o, x); if (res < 0) continue;
+            if (res == 0) { violation("overwide-accepted/" + key, "value " + std::to_string(x) + " (clamped to the argument's storage type) exceeds " + std::to_string(f.small_bits) + " bits but was accepted (getter now " + f.get(o).text + ", before " + before_txt + ")"); return; } cnt("overwide_rejected"); }
     }
     sig(fnv(key) ^ (u64)state);
 }
 
-// generic "poke": set other scalar fields of the same object to extreme/random values through type-erased setters
-struct Poker { std::string cls, key; std::function<void(void*, Rng&, u32)> poke; };
-static std::vector<Poker> g_pokers;
-void poke_others(void* obj, const std::string& cls, const std::string& key, Rng& r, u32 state) {
-    if (!state) return;
-    for (auto& p : g_pokers) if (p.cls == cls && p.key != key && !aliases(p.key, key) && (state == 1 || r.chance(1, 2))) { try { p.poke(obj, r, state); } catch (...) {} }
-}
+template <class T> static Val mkval(const T& v) { Val o; o.text = txt(v); o.numeric = num(v, o.num); return o; }
 
 template <class Q, class OWNER, class A> struct Reg {
-    template <class SET, class GET> static void go(const char* cls, const char* oname, const char* f, SET set, GET get) {
-        std::string key = std::string(oname) + "." + f;
-        FieldRunner fr; fr.key = key; fr.cls = cls; fr.owner = oname;
-        fr.run = [=](long round, Rng& r, bool th) { run_field<Q, A>(key, cls, oname, set, get, round, r, th); };
-        g_fields.push_back(fr);
-        if (width_bits<A>() && kind<A>::value) { Poker p; p.cls = cls; p.key = key; p.poke = [=](void* o, Rng& r, u32 state) { Q& q = *static_cast<Q*>(o); u32 before = q.size(); Q copy(q);
-                unsigned W = width_bits<A>(); u64 mx = W >= 64 ? ~0ULL : ((1ULL << W) - 1); A v = make_value<A>(state == 1 ? mx : (r.next() & mx), r); set(q, v); if (q.size() != before) q = copy; }; g_pokers.push_back(p); }
+    template <class SET, class GET> static void go(const char* cls, const char* oname, const char* fname, SET set, GET get) {
+        FieldOps f; f.key = std::string(oname) + "." + fname; f.cls = cls; f.owner = oname; f.width = width_bits<A>(); f.small_bits = is_small<A>::value ? (int)is_small<A>::bits : 0; f.is_enum = std::is_enum<A>::value;
+        if (!g_make.count(cls)) g_make[cls] = []() -> PDU* { Q* q = new Q(); static const uint8_t pl[3] = {0xde, 0xad, 0x42}; q->inner_pdu(new RawPDU(pl, 3)); return q; };
+        f.set = [set](PDU& o, u64 x, Rng& r) { A v = make_value<A>(x, r); set(static_cast<Q&>(o), v); return mkval(v); };
+        f.get = [get](const PDU& o) { return mkval(get(static_cast<const Q&>(o))); };
+        f.overwide = [set](PDU& o, u64 x) -> int {
+            if constexpr (is_small<A>::value) { typedef typename A::repr_type R; const u64 tmax = (u64)std::numeric_limits<R>::max(); if (x > tmax) x = tmax; if (x <= ((1ULL << is_small<A>::bits) - 1)) return -1;
+                try { A big((R)x); set(static_cast<Q&>(o), big); } catch (const value_too_large&) { return 1; } catch (const exception_base&) { return 1; } return 0; }
+            else { (void)o; (void)x; return -1; } };
+        g_fields.push_back(f);
     }
 };
 
@@ -198,8 +219,8 @@ int main(int argc, char** argv) {
         if (idx == 0) { cnt("field_pairs_in_table", g_fields.size()); cnt("classes_in_table", classes.size()); }
         // one case = every field of one class in one prior-state round, so that footprints of the class can be compared
         const std::string& c = classes[(size_t)idx % classes.size()]; long round = idx / (long)classes.size();
-        g_foot.clear(); g_foot_cls.clear();
-        for (auto& f : g_fields) if (f.cls == c) { f.run(round, r, st().a.tier == "thorough"); cnt("field_runs"); }
+        g_foot.clear();
+        for (auto& f : g_fields) if (f.cls == c) { run_field(f, round, r, st().a.tier == "thorough"); cnt("field_runs"); }
         for (auto a = g_foot.begin(); a != g_foot.end(); ++a) for (auto b = std::next(a); b != g_foot.end(); ++b) { if (aliases(a->first, b->first)) continue;
             for (size_t pos : a->second) if (b->second.count(pos)) { violation("footprints-overlap/" + a->first + "+" + b->first, "both fields changed bit " + std::to_string(pos) + " of the serialization of " + c); break; } }
         cnt("fields_with_footprint", g_foot.size());
